@@ -39,12 +39,31 @@ const (
 func TestVerifC10(t *testing.T) { verifFlowRun(t, "c10") }
 func TestVerifC11(t *testing.T) { verifFlowRun(t, "c11") }
 
+// verifFlowRun alternates between the server rig (this file) and the Transport rig
+// (trig_test.go); a case's first op (`reset` / `treset`) selects the rig on replay.
 func verifFlowRun(t *testing.T, mode string) {
 	cfg := vu.ConfigFromEnv()
-	vu.Run(cfg, func(r *vu.Rng, i int) []string { return vfGen(r, i, mode) },
-		func(ops []string, o *vu.Out) {
-			synctest.Test(t, func(t *testing.T) { vfExec(t, mode, ops, o) })
+	vu.Run(cfg, func(r *vu.Rng, i int) []string {
+		if i%2 == 1 {
+			return vtGen(r, i, mode)
+		}
+		return vfGen(r, i, mode)
+	}, func(ops []string, o *vu.Out) {
+		transport := false
+		for _, op := range ops {
+			if f := strings.Fields(op); len(f) > 0 && (f[0] == "reset" || f[0] == "treset") {
+				transport = f[0] == "treset"
+				break
+			}
+		}
+		synctest.Test(t, func(t *testing.T) {
+			if transport {
+				vtExec(t, mode, ops, o)
+			} else {
+				vfExec(t, mode, ops, o)
+			}
 		})
+	})
 }
 
 // ---------------------------------------------------------------- executor
